@@ -240,33 +240,39 @@ Theorem string_fields_identity e :
   (forall r, e_req e = Some r ->
      render_field FRemoteAddr e = Ok (rq_remote r) /\
      render_field FRequest e = Ok (rq_method r ++ [32] ++ rq_uri r ++ [32] ++ rq_proto r) /\
-     render_field FRequestHost e = Ok (rq_host r) /\ render_field FRequestMethod e = Ok (rq_method r) /\
+     (e_requrl e = None -> render_field FRequestHost e = Ok (rq_host r)) /\
+     render_field FRequestMethod e = Ok (rq_method r) /\
      render_field FRequestURI e = Ok (rq_uri r) /\ render_field FRequestProto e = Ok (rq_proto r) /\
      exists h p, hostport_spec (rq_remote r) h p /\
                  render_field FRemoteHost e = Ok h /\ render_field FRemotePort e = Ok p) /\
   (e_req e = None ->
      Forall (fun f => render_field f e = Ok [])
-            [FRemoteAddr; FRemoteHost; FRemotePort; FRequest; FRequestHost; FRequestMethod;
+            [FRemoteAddr; FRemoteHost; FRemotePort; FRequest; FRequestMethod;
              FRequestURI; FRequestProto]) /\
   (forall u, e_requrl e = Some u ->
      render_field FRequestArgs e = Ok (u_rawquery u) /\ render_field FRequestScheme e = Ok (u_scheme u) /\
+     render_field FRequestHost e = Ok (u_host u) /\
      render_field FRequestURL e = Ok (u_string u)) /\
   (forall u, e_upurl e = Some u ->
      render_field FUpReqScheme e = Ok (u_scheme u) /\ render_field FUpReqURI e = Ok (u_requri u) /\
      render_field FUpReqURL e = Ok (u_string u)) /\
   (e_requrl e = None -> Forall (fun f => render_field f e = Ok []) [FRequestArgs; FRequestScheme; FRequestURL]) /\
+  (e_requrl e = None -> e_req e = None -> render_field FRequestHost e = Ok []) /\
   (e_upurl e = None -> Forall (fun f => render_field f e = Ok []) [FUpReqScheme; FUpReqURI; FUpReqURL]).
 Proof.
-  unfold render_field, render_field_with, with_req, with_url.
+  unfold render_field, render_field_with, request_host, with_req, with_url.
   split; [reflexivity|]. split; [reflexivity|]. split.
   { destruct (hostport_total (e_upaddr e)) as (h & p & Hp & Sp). exists h, p. rewrite Hp. now repeat split. }
   split.
-  { intros r Hr. rewrite Hr. repeat (split; [reflexivity|]).
+  { intros r Hr. rewrite Hr. split; [reflexivity|]. split; [reflexivity|].
+    split; [intros Hu; now rewrite Hu|]. repeat (split; [reflexivity|]).
     destruct (hostport_total (rq_remote r)) as (h & p & Hp & Sp). exists h, p. rewrite Hp. now repeat split. }
   split. { intros Hr. rewrite Hr. repeat constructor. }
   split. { intros u Hu. rewrite Hu. now repeat split. }
   split. { intros u Hu. rewrite Hu. now repeat split. }
-  split; intros Hu; rewrite Hu; repeat constructor.
+  split. { intros Hu; rewrite Hu; repeat constructor. }
+  split. { intros Hu Hr. now rewrite Hu, Hr. }
+  intros Hu; rewrite Hu; repeat constructor.
 Qed.
 
 (* ---------------- the line is the concatenation of the pattern's pieces ---------------- *)
